@@ -30,10 +30,13 @@ class RAM(MemoryType):
 
     def read(self, address, size):
         chunk = self.memory_array[address:address + size]
-        return chunk
+        # an access running past the end of the device reads the missing bytes as zero
+        return chunk.ljust(size, b'\x00')
 
     def write(self, address, size, value):
-        self.memory_array[address:address + size] = value
+        # never grow or shrink the device: bytes past its end are dropped
+        data = bytes(value[:max(0, min(size, self.size - address))])
+        self.memory_array[address:address + len(data)] = data
 
 
 MEMORY_TYPE_DICT = {
